@@ -693,10 +693,10 @@ def build_pairs(rng, kws, quick, replay=None):
         return [Pair(d["input"], "replay", d.get("family", "replay"), d.get("map", {}))]
     progs = []
     feats = gen.DEFAULT_FEATURES
-    for i in range(24 if quick else 1200):
+    for i in range(24 if quick else 200):
         names = list(POOL); rng.shuffle(names)
         progs.append((gen.program(rng, size=rng.randint(2, 8), features=feats, names=names), "generated"))
-    for i in range(4 if quick else 300):
+    for i in range(4 if quick else 40):
         progs.append((gen.program(rng, size=rng.randint(2, 8), features=feats), "generated"))
     progs += [(s, "extra") for s in convcorr.EXTRA + EXTRA]
     progs += [(s, "sample") for s in convcorr.sample_sources()]
